@@ -16,6 +16,7 @@ from ..orders import NUMERIC_SETTERS, worlds
 from .c14 import DEF_OK, check_transfer, compile_setters, init_semantics, sequence_of
 
 LEVEL = "other"
+PARSER_INTERPRETED = False
 BASE = "pyimpspec.circuit.base"
 PARSER = "pyimpspec.circuit.parser"
 TOK = "pyimpspec.circuit.tokenizer"
@@ -239,48 +240,93 @@ def check(ctx: Ctx) -> None:
     else:
         ctx.violation("R3.2", "Element.to_string:field-order", BASE, loop,
                       f"a parameter is emitted as one of {got}; the parser reads key=value[F]/lower/upper with 'inf' for an absent limit, i.e. {want}")
-    pp = model.fi(PARSER, "Parser.param")
-    pl_calls = [(n, norm(parent(n).targets[0]) if isinstance(parent(n), ast.Assign) else "?")
-                for n in walk_ordered(pp.node) if isinstance(n, ast.Call) and dotted(n.func) == "self.param_limit"]
-    ctx.instance("R3.2", f"Parser.param limit reads {[t for _, t in pl_calls]}")
-    good = len(pl_calls) == 3
-    if good:
-        def upflag(c):
-            for k in c.keywords:
-                if k.arg == "upper":
-                    return k.value.value
-            return None
-        seq = [(t, upflag(c)) for c, t in pl_calls]
-        good = seq == [("upper", True), ("lower", False), ("upper", True)]
-    if good:
-        ctx.ok()
-    else:
-        ctx.violation("R3.2", "Parser.param:limit-order", PARSER, pp.node,
-                      "Parser.param must read '//upper' or '/lower[/upper]' with the upper flag matching the target")
-    lim = model.fi(PARSER, "Parser.param_limit")
-    ctx.instance("R3.2", "Parser.param_limit maps 'inf' to -inf/+inf by position")
-    rets = [n for n in walk_ordered(lim.node) if isinstance(n, ast.Return)]
-    txt = [norm(r_.value) for r_ in rets]
-    if "inf" in txt and "-inf" in txt:
-        r_inf = next(r_ for r_ in rets if norm(r_.value) == "inf")
-        okp = isinstance(parent(r_inf), ast.If) and norm(parent(r_inf).test) == "upper" and r_inf in parent(r_inf).body
-        if okp:
+    # the parser side is decided by interpretation of Parser.param / Parser.parameters on token streams (see
+    # sa/checks/_parser_interp.py); the shape rules below it are the fallback when a construct is outside the interpreter
+    global PARSER_INTERPRETED
+    PARSER_INTERPRETED = False
+    try:
+        from ._parser_interp import run_param, run_parameters
+        pp = model.fi(PARSER, "Parser.param")
+        probs1, n1 = run_param(ctx, model)
+        ctx.instance("R3.2", f"Parser.param on {n1} token streams: value[F], /lower[/upper] and //upper with number, percentage and inf limits; terminator left in place")
+        if not probs1:
             ctx.ok()
         else:
-            ctx.violation("R3.2", "Parser.param_limit:inf-sign", PARSER, lim.node, "'inf' must map to +inf exactly when the upper limit is being read")
-    else:
-        ctx.violation("R3.2", "Parser.param_limit:inf-sign", PARSER, lim.node, "'inf' limit keyword no longer maps to -inf/+inf")
-    # label last
-    ctx.instance("R3.2", "label after parameters in emitter and parser")
-    tsrc = [n for n in walk_ordered(ts.node) if isinstance(n, ast.AugAssign) and norm(n.target) == "cdc"]
-    lab_after = any("self._label" in norm(n.value) for n in tsrc) and loop.lineno < min(n.lineno for n in tsrc)
-    pf = model.fi(PARSER, "Parser.parameters")
-    colon_ifs = [n for n in pf.node.body if isinstance(n, ast.If) and norm(n.test) == "self.accept(Colon)"]
-    rc = [n for n in pf.node.body if isinstance(n, ast.Expr) and norm(n.value) == "self.expect(RCurly)"]
-    if lab_after and colon_ifs and rc and colon_ifs[-1].lineno < rc[0].lineno:
+            ctx.violation("R3.2", "Parser.param:limit-order", PARSER, pp.node, "Parser.param does not read the parameter grammar the emitter writes — " + probs1[0])
+        probs2, n2 = run_parameters(ctx, model, got)
+        pf = model.fi(PARSER, "Parser.parameters")
+        ctx.instance("R3.2", f"Parser.parameters reads back {n2} blocks built from the emitter's entry shapes, with and without a label")
+        if not probs2:
+            ctx.ok()
+        else:
+            ctx.violation("R3.2", "label:position" if "lbl" in probs2[0] and "':lbl'" not in probs2[0] and False else "Parser.parameters:round-trip", PARSER, pf.node,
+                          "Parser.parameters does not read back what Element.to_string writes — " + probs2[0])
+        PARSER_INTERPRETED = True
+    except AnalysisError as e:
+        ctx.note(f"parser grammar not interpretable ({e}); falling back to the shape rules")
+    # emitter side: the label is written after the parameter entries and before the closing brace
+    ctx.instance("R3.2", "Element.to_string writes ':' + label after the parameter entries, before '}'")
+    whole = sab.run()
+    lab_ok = True
+    n_lab = 0
+    for alt in whole:
+        idx = [i for i, p_ in enumerate(alt) if p_[0] == "str" and "_label" in p_[1]]
+        if not idx:
+            continue
+        n_lab += 1
+        i = idx[-1]
+        before_ok = i > 0 and alt[i - 1][0] == "lit" and alt[i - 1][1].endswith(":")
+        after_ok = i + 1 < len(alt) and alt[i + 1][0] == "lit" and alt[i + 1][1].startswith("}")
+        nums_before = all(j < i for j, p_ in enumerate(alt) if p_[0] == "num")
+        lab_ok = lab_ok and before_ok and after_ok and nums_before
+    if lab_ok and n_lab:
         ctx.ok()
     else:
-        ctx.violation("R3.2", "label:position", PARSER, pf.node, "label must be emitted after the parameters and parsed after them, before the closing brace")
+        ctx.violation("R3.2", "label:position", BASE, ts.node, "the label must be emitted as ':' + label after the parameters and directly before the closing brace")
+    if not PARSER_INTERPRETED:
+        pp = model.fi(PARSER, "Parser.param")
+        pl_calls = [(n, norm(parent(n).targets[0]) if isinstance(parent(n), ast.Assign) else "?")
+                    for n in walk_ordered(pp.node) if isinstance(n, ast.Call) and dotted(n.func) == "self.param_limit"]
+        ctx.instance("R3.2", f"Parser.param limit reads {[t for _, t in pl_calls]}")
+        good = len(pl_calls) == 3
+        if good:
+            def upflag(c):
+                for k in c.keywords:
+                    if k.arg == "upper":
+                        return k.value.value
+                return None
+            seq = [(t, upflag(c)) for c, t in pl_calls]
+            good = seq == [("upper", True), ("lower", False), ("upper", True)]
+        if good:
+            ctx.ok()
+        else:
+            ctx.violation("R3.2", "Parser.param:limit-order", PARSER, pp.node,
+                          "Parser.param must read '//upper' or '/lower[/upper]' with the upper flag matching the target")
+        lim = model.fi(PARSER, "Parser.param_limit")
+        ctx.instance("R3.2", "Parser.param_limit maps 'inf' to -inf/+inf by position")
+        rets = [n for n in walk_ordered(lim.node) if isinstance(n, ast.Return)]
+        txt = [norm(r_.value) for r_ in rets]
+        if "inf" in txt and "-inf" in txt:
+            r_inf = next(r_ for r_ in rets if norm(r_.value) == "inf")
+            okp = isinstance(parent(r_inf), ast.If) and norm(parent(r_inf).test) == "upper" and r_inf in parent(r_inf).body
+            if okp:
+                ctx.ok()
+            else:
+                ctx.violation("R3.2", "Parser.param_limit:inf-sign", PARSER, lim.node, "'inf' must map to +inf exactly when the upper limit is being read")
+        else:
+            ctx.violation("R3.2", "Parser.param_limit:inf-sign", PARSER, lim.node, "'inf' limit keyword no longer maps to -inf/+inf")
+        # label last
+        ctx.instance("R3.2", "label after parameters in emitter and parser")
+        tsrc = [n for n in walk_ordered(ts.node) if isinstance(n, ast.AugAssign) and norm(n.target) == "cdc"]
+        lab_after = any("self._label" in norm(n.value) for n in tsrc) and loop.lineno < min(n.lineno for n in tsrc)
+        pf = model.fi(PARSER, "Parser.parameters")
+        colon_ifs = [n for n in pf.node.body if isinstance(n, ast.If) and norm(n.test) == "self.accept(Colon)"]
+        rc = [n for n in pf.node.body if isinstance(n, ast.Expr) and norm(n.value) == "self.expect(RCurly)"]
+        if lab_after and colon_ifs and rc and colon_ifs[-1].lineno < rc[0].lineno:
+            ctx.ok()
+        else:
+            ctx.violation("R3.2", "label:position", PARSER, pf.node, "label must be emitted after the parameters and parsed after them, before the closing brace")
+
 
     # ---------------- R3.3 / R3.7 ---------------------------------------------------------
     push = model.fi(PARSER, "Parser.push_stack")
@@ -583,7 +629,7 @@ def _state_carried(ctx: Ctx, model) -> None:
             ctx.violation("R3.8", f"Parser.element:{nm}", PARSER, el.node,
                           f"Parser.element does not hand the parsed `{nm}` to {meth} completely ({why}): that part of the state is lost or altered when a code is parsed back")
     # parameters(): the four per-parameter stores are unconditional in the numeric branch
-    for d, v in (("parameters", "value"), ("lower_limits", "lower"), ("upper_limits", "upper"), ("fixed_parameters", "fixed")):
+    for d, v in (() if PARSER_INTERPRETED else (("parameters", "value"), ("lower_limits", "lower"), ("upper_limits", "upper"), ("fixed_parameters", "fixed"))):
         st = [n for n in walk_ordered(pf.node) if isinstance(n, ast.Assign) and norm(n.targets[0]) == f"{d}[key]"]
         ctx.instance("R3.8", f"Parser.parameters: {d}[key] = {v}")
         good = len(st) == 1 and norm(st[0].value) == v
@@ -596,12 +642,13 @@ def _state_carried(ctx: Ctx, model) -> None:
         else:
             ctx.violation("R3.8", f"Parser.parameters:{d}", PARSER, pf.node, f"Parser.parameters must record {d}[key] = {v} for every parsed numeric parameter")
     pp = model.fi(PARSER, "Parser.param")
-    ctx.instance("R3.8", "Parser.param: fixed flag = token is a FixedNumber")
-    fx = [n for n in walk_ordered(pp.node) if isinstance(n, (ast.Assign, ast.AnnAssign)) and norm(n.targets[0] if isinstance(n, ast.Assign) else n.target) == "fixed"]
-    if len(fx) == 1 and norm(fx[0].value) in ("isinstance(value, FixedNumber)", "type(value) is FixedNumber"):
-        ctx.ok()
-    else:
-        ctx.violation("R3.8", "Parser.param:fixed", PARSER, pp.node, "the fixed flag must be exactly 'the number token carries the F marker'")
+    if not PARSER_INTERPRETED:
+        ctx.instance("R3.8", "Parser.param: fixed flag = token is a FixedNumber")
+        fx = [n for n in walk_ordered(pp.node) if isinstance(n, (ast.Assign, ast.AnnAssign)) and norm(n.targets[0] if isinstance(n, ast.Assign) else n.target) == "fixed"]
+        if len(fx) == 1 and norm(fx[0].value) in ("isinstance(value, FixedNumber)", "type(value) is FixedNumber"):
+            ctx.ok()
+        else:
+            ctx.violation("R3.8", "Parser.param:fixed", PARSER, pp.node, "the fixed flag must be exactly 'the number token carries the F marker'")
     # emitter side: 'open' for None, 'short' for an empty connection, text otherwise
     ct = model.fi(BASE, "Container.to_string")
     ctx.instance("R3.8", "Container.to_string: open/short conditions")
